@@ -245,7 +245,8 @@ def known_F8(k, f):
     if k["id"] != "F8":
         return False
     what = f.get("what", "")
-    if not what.startswith("eigsh_projector_sumrule_large: columns are not in the unit eigenspace"):
+    if not (what.startswith("eigsh_projector_sumrule_large: columns are not in the unit eigenspace")
+            or what.startswith("eigsh_projector_sumrule_large[verbose]: columns are not in the unit eigenspace")):
         return False
     try:
         inp = f.get("input") or {}
@@ -370,7 +371,8 @@ PROPS = {
         "lean": "SymfcModel.Props.C07", "gen": ["Cutoff", "ApiCompute", "PipelineSkel"],
         "corr": [{"fn": C.corr_combinations, "quick": {"n_cases": 45}, "thorough": {"n_cases": 300}},
                  {"fn": C.corr_perm_stage, "quick": {"n_cases": 24}, "thorough": {"n_cases": 150}}],
-        "oracle": [{"name": "cutoff", "fn": o_cutoff, "quick": {"n": 6}, "thorough": {"n": 30}, "search": {"n": 36}}],
+        "oracle": [{"name": "cutoff", "fn": o_cutoff, "quick": {"n": 6}, "thorough": {"n": 30, "max_N": (8, 6, 3)},
+                    "search": {"n": 36, "max_N": (8, 6, 3)}}],
         "known": known_F1,
         "corpus": [{"name": "corpus_F1_order4_large_cutoff", "fn": corpus_F1_cutoff}],
         "trusted": [KERNELS["spglib"], KERNELS["float"],
